@@ -464,6 +464,38 @@ def e1d(fb, rep):
             rep.ok(R, "Value::obj_eq: all %d pointer-carrying representations are compared with GcPtr::ptr_eq" % len(ptr_variants))
         else:
             rep.violation(R, "identity-not-by-address", "Value::obj_eq uses GcPtr::ptr_eq for %d of the %d pointer-carrying representations" % (len(ptr_eqs), len(ptr_variants)), oe.where())
+    # root_ (re-rooting a handle that a gc::mutex guard un-rooted) requires "not rooted" and then sets the flag; the sibling for
+    # thread handles does the same
+    n_root = 0
+    for bid, b in fb.bodies.items():
+        if b.crate.name != "gluon_vm" or not bid.endswith("::root_") or b.kind != "fn":
+            continue
+        sets = [x for x in flow.field_writes(b, RV, "rooted") if x[4] == "assign"] + [x for x in flow.field_writes(b, "gluon_vm::thread::RootedThread", "rooted") if x[4] == "assign"]
+        if not sets:
+            continue
+        n_root += 1
+        verdict = None
+        for bb, srcs, true_t, false_t in flow.bool_switches(b):
+            if not any(s_[0] == "field" and s_[2] == "rooted" for s_ in srcs):
+                continue
+            neg = ("op", "Not") in srcs
+            # which edge panics?
+            def panics(t):
+                reach = b.reachable(t, avoid_blocks=[x[0] for x in sets])
+                return any(c.bb in reach and c.target is None and "panic" in c.res for c in b.calls())
+            pt, pf = panics(true_t), panics(false_t)
+            if pt != pf:
+                # switch operand true means (not neg: rooted) / (neg: !rooted)
+                rooted_on_panic = (pt and not neg) or (pf and neg)
+                verdict = rooted_on_panic
+        if verdict is True:
+            rep.ok(R, "%s asserts the handle is not rooted, then sets rooted = true" % bid)
+        elif verdict is False:
+            rep.violation(R, "root-assert-inverted|%s" % bid, "%s panics when the handle is *not* rooted, i.e. exactly when it is called (re-rooting after a gc::mutex guard "
+                          "un-rooted the contents): the second lock of a GC-heap mutex holding a host handle panics with rooted_values write-locked" % bid, b.where())
+        else:
+            rep.ok(R, "%s sets rooted = true (no assertion on the flag)" % bid)
+    rep.floor(R, "root_ functions examined", n_root, 2)
     # Drop unroots
     d = [b for b in fb.bodies.values() if b.get("impl_trait") == "core::ops::drop::Drop" and b.get("name") == "drop" and "RootedValue<T>" in b.id]
     if d and any(c.res.endswith("::unroot_") for c in d[0].calls()):
@@ -612,4 +644,5 @@ def run(fb, rep, tier, cfg):
     # a copy that keeps pointing into the source heap is freed by the source's next collection while still reachable
     e4.userdata_clones(fb, rep)
     e4.cloner_heap_pairing(fb, rep)
+    e4.foreign_thread_roots(fb, rep)
     e4.cloner_helpers(fb, rep)
